@@ -61,6 +61,7 @@ RULE = ("toy linear model with L1 sum loss (integer-valued gradients), k in 1..4
         "model, with/without OOM-skipped iterations; real Unet2d / RIM / EndToEndVarNet engines on 8x8 two-coil data, k in 1..4, "
         "SGD/Adam; non-trivial = k >= 2 and at least one completed window; "
         "distinct = distinct protocol line / oracle configuration")
+EXTRA_LEAN_MODULES = ["DirectVerif.Lemmas.C16Events"]
 PENDING_FINDINGS: list[str] = []     # `resume-mid-window` is listed as known; `additional-models-not-divided` was repaired
 
 logging.disable(logging.CRITICAL)
@@ -474,7 +475,7 @@ def real_uninterrupted(c):
 def correspondence(ctx: Ctx):
     rng = ctx.rng
     cache = ctx.__dict__.setdefault("c16_runs", [])
-    specs = [(k, None) for k in (1, 2, 3, 4)] * 2 + [(None, None)] * ctx.budget(60, 900)
+    specs = [(k, None) for k in (1, 2, 3, 4)] * 2 + [(None, None)] * ctx.budget(48, 900)
     specs += [(None, m) for m in ("k0", "unsorted", "method", "method", "k0")] * ctx.budget(1, 6)
     for k, malformed in specs:
         c = gen_cfg(rng, k=k, malformed=malformed)
@@ -519,6 +520,24 @@ def correspondence(ctx: Ctx):
         mid = any((j + 1) % c["k"] != 0 for j in oom) and c["k"] >= 2
         yield {"line": proto("loop", toy_groups(c, [0]) + [oom]), "impl": impl_oom, "nontrivial": True,
                "bucket": f"oom-skip/k{c['k']}/" + ("mid-window" if mid else "boundary") + "/" + where}
+    # histories of processes with everything that happens between iterations: validation rounds, periodic checkpoints,
+    # log writes, start_with_validation, SIGINT kill path, clean stop + resume — interleaved with accumulation windows
+    from props import c16_events as ev
+    from translate.recipes.c16_events import table_codes
+
+    codes = table_codes()
+    hcache = ctx.__dict__.setdefault("c16_hist", [])
+    for i in range(ctx.budget(22, 300)):
+        c, val, procs = ev.gen_history(rng, k=[2, 3, 4, 2, 1, 3][i % 6] if i < 12 else None, force_mid_val=(i % 2 == 0))
+
+        def impl_hist(c=c, val=val, procs=procs):
+            outs = ev.run_history(c, val, procs)
+            hcache.append((c, val, procs, outs))
+            return ev.fmt_history(outs)
+
+        shape = "+".join("kill" if p[1] >= 0 else ("stop" if p[0] < c["T"] else "run") for p in procs)
+        yield {"line": ev.history_line(c, val, procs, codes), "impl": impl_hist, "nontrivial": c["k"] >= 2,
+               "bucket": f"history/k{c['k']}/{shape}/" + ("val" if val[1] else "noval")}
 
 
 # ==================================================================================================
@@ -537,8 +556,11 @@ def _float_reference(c, opt_kind, clip):
         xb = torch.tensor([[float(v) for v in x] for x, _ in rows], dtype=torch.float64)
         yb = torch.tensor([float(y) for _, y in rows], dtype=torch.float64)
         res = xb @ w.detach() - yb          # the same float expression as the toy model's forward
-        if bool((res.abs() < 1e-9).any()):
-            return None                     # a residual on the kink of |·|: the sub-gradient there is a rounding accident
+        near = res.abs() < 1e-9
+        if bool((near & (res != 0)).any()) or (it > 0 and opt_kind == "adam" and bool(near.any())):
+            # a residual next to the kink of |·|: the sub-gradient there is a rounding accident.  An exact zero is not
+            # (torch's |·| has sub-gradient 0 there, as `sign`), unless the parameters themselves carry rounding (Adam)
+            return None
         window.append((torch.sign(res)[:, None] * xb).sum(0).tolist())
         if (it + 1) % c["k"] == 0:
             mean = torch.tensor(window, dtype=torch.float64).sum(0) / c["k"]
@@ -824,6 +846,57 @@ def oracle(ctx: Ctx, deep: bool = False):
             yield Violation(f"step-not-mean-of-window-{kind}", f"{kind} engine, k={k}, {opt_kind}: parameters after iteration {bad} "
                             f"deviate from the step on the window's mean gradient by {worst:.3g}",
                             {"op": "real-engine", "engine": kind, "k": k, "T": total, "bs": bs, "opt": opt_kind, "seed": seed})
+    # (2c) histories with between-iteration events (validation / checkpoint / kill / stop + resume), stated on the
+    # observations: lr in effect(t) = schedule(t), every iteration exactly once, scheduler steps = iterations, parameters
+    # = the uninterrupted reference (after a mid-window resume: = the reference that models the known finding, nothing else)
+    from props import c16_events as ev
+
+    hists = list(ctx.__dict__.get("c16_hist", []))
+    for i in range((8 if not hists else 0) + (60 if deep else 0)):
+        c, val, procs = ev.gen_history(rng, k=[2, 3, 4, 2][i % 4], force_mid_val=(i % 3 != 2))
+        hists.append((c, val, procs, ev.run_history(c, val, procs)))
+    for c, val, procs, outs in hists:
+        vmid, smid = ev.mid_window_events(c, outs)
+        ctx.count(("history", ev.history_line(c, val, procs, [])), c["k"] >= 2,
+                  bucket=f"oracle/history/k{c['k']}/" + ("val-mid-window" if vmid else "save-mid-window" if smid else "aligned"))
+        ctx.hist["oracle/history/mid-window-validation-rounds"] = ctx.hist.get("oracle/history/mid-window-validation-rounds", 0) + vmid
+        ctx.hist["oracle/history/mid-window-saves"] = ctx.hist.get("oracle/history/mid-window-saves", 0) + smid
+        for key, what, detail in ev.check_history(c, val, procs, outs):
+            yield Violation(key, what, ev.history_replay(c, val, procs, key=key, **detail))
+    # (2d) an ENABLED GradScaler (power-of-two scales that grow during the run) through the real loop: the update must
+    # still be the step on the window mean, exactly
+    for i in range(ctx.budget(6, 60) + (20 if deep else 0)):
+        c, val, _ = ev.gen_history(rng, k=[2, 3, 4, 1, 2, 4][i % 6], force_mid_val=True)
+        c.pop("aux", None)
+        scaler = ev.amp_scaler(rng)
+        if scaler is None:
+            ctx.notes.append("torch.amp.GradScaler('cpu') unavailable: mixed-precision runs skipped")
+            break
+        with scratch_dir() as d:
+            r = ev.run_eprocess(d, c, total=c["T"], resume=False, val_steps=val[0], has_val=True, scaler=scaler[0])
+        ctx.count(("amp", scaler[1], proto("loop", toy_groups(c))), c["k"] >= 2, bucket=f"oracle/amp-enabled/k{c['k']}")
+        bad = check_exact(c, r)
+        if bad:
+            yield Violation(bad[0] + "-amp", f"GradScaler enabled ({scaler[1]}): " + bad[1],
+                            _cfg_replay(c, check="amp", scaler=scaler[1], val_steps=val[0], **bad[2]))
+        # … and with gradient clipping (clipping must see unscaled gradients), under tolerance
+        clip = rng.choice([0.5, 1.0, 2.0])
+        c2 = dict(c, clip=clip)
+        ref = _float_reference(c, "sgd", clip)
+        if ref is None:
+            continue
+        scaler = ev.amp_scaler(rng)
+        with scratch_dir() as d:
+            r = ev.run_eprocess(d, c2, total=c["T"], resume=False, val_steps=val[0], has_val=True, scaler=scaler[0])
+        ctx.count(("amp-clip", scaler[1], clip, proto("loop", toy_groups(c))), c["k"] >= 2,
+                  bucket=f"oracle/amp-enabled-clip/k{c['k']}")
+        for it, ((w, lr), (rw, rlr)) in enumerate(zip(r["records"], ref)):
+            if max(abs(a - b) for a, b in zip(w, rw)) > 1e-9:
+                yield Violation("step-not-mean-of-window-amp-clip",
+                                f"GradScaler enabled ({scaler[1]}), clip={clip}: parameters after iteration {it} are {w}, "
+                                f"reference {rw}", _cfg_replay(c2, check="ampclip", scaler=scaler[1], val_steps=val[0],
+                                                               iteration=it))
+                break
     # (3) resume: at a window boundary it must reproduce the uninterrupted run; inside a window it does not
     for i in range(ctx.budget(6, 40)):
         k = [2, 3, 2, 4][i % 4]
@@ -851,6 +924,27 @@ def replay(rep: dict) -> bool:
     if rep.get("op") == "real-engine":
         return real_engine_check(rep["engine"], rep["k"], rep["T"], rep["bs"], rep["opt"], rep["seed"])[1] is not None
     c = _cfg_from_replay(rep)
+    if rep.get("check") == "history":
+        from props import c16_events as ev
+
+        val, procs = tuple(rep["val"]), rep["procs"]
+        outs = ev.run_history(c, val, procs)
+        return any(k == rep.get("key") for k, _, _ in ev.check_history(c, val, procs, outs))
+    if rep.get("check") == "ampclip":
+        from props import c16_events as ev
+
+        sc = ev.amp_scaler_from(rep["scaler"])
+        with scratch_dir() as d:
+            r = ev.run_eprocess(d, c, total=c["T"], resume=False, val_steps=rep["val_steps"], has_val=True, scaler=sc)
+        ref = _float_reference(dict(c, clip=0), "sgd", c.get("clip", 0))
+        return ref is not None and any(max(abs(a - b) for a, b in zip(w, rw)) > 1e-9 for (w, _), (rw, _) in zip(r["records"], ref))
+    if rep.get("check") == "amp":
+        from props import c16_events as ev
+
+        sc = ev.amp_scaler_from(rep["scaler"])
+        with scratch_dir() as d:
+            r = ev.run_eprocess(d, c, total=c["T"], resume=False, val_steps=rep["val_steps"], has_val=True, scaler=sc)
+        return check_exact(c, r) is not None
     if rep.get("check") == "resume":
         full, a, b = check_resume(c, rep["stop_after"])
         return [r[0] for r in full["records"][rep["stop_after"] + 1:]] != [r[0] for r in b["records"]]
